@@ -54,6 +54,9 @@ type sched struct {
 	switches int
 	maxSteps int
 	switchP  int // 0: uniform pick; else probability (percent) of leaving the running task at a yield
+	// gather: run whoever has not reached the getter yet, so that as many downloads as there are
+	// callers are in flight at the same moment; only then does any of them proceed
+	gather bool
 	last     int
 	// PCT-style strategy (when prio != nil): run the runnable task of highest priority; at each of
 	// a few drawn step numbers the running task's priority drops below everyone else's.
@@ -89,6 +92,7 @@ type stask struct {
 	steps  int
 	fn     func()
 	panicV any
+	site   string // the site of the yield it is parked at
 }
 
 // self returns the task of the calling goroutine, or nil for a goroutine that is no task.
@@ -140,6 +144,7 @@ func (s *sched) yield(site string) {
 		return // not inside a scheduled phase
 	}
 	t.steps++
+	t.site = site
 	if t.steps > s.maxSteps && !t.waiting {
 		if t.aux {
 			t.done = true // a helper that runs free from here on is nothing to schedule any more
@@ -148,6 +153,17 @@ func (s *sched) yield(site string) {
 	}
 	s.back <- t.id
 	<-t.resume
+}
+
+// notAt returns the tasks that are not parked at the given yield site.
+func notAt(ts []*stask, site string) []*stask {
+	var out []*stask
+	for _, t := range ts {
+		if t.site != site {
+			out = append(out, t)
+		}
+	}
+	return out
 }
 
 // blocked is the yield of a task whose TryLock failed (instrumented worker): the task parks
@@ -346,6 +362,8 @@ func (s *sched) run(fns []func()) {
 					pick = t
 				}
 			}
+		} else if early := notAt(runnable, "net.Get"); s.gather && len(early) > 0 {
+			pick = early[s.r.Intn(len(early), "pick-not-yet-downloading")]
 		} else if lt := s.lastTask(); s.switchP > 0 && lt != nil && !lt.done && !lt.blocked && !lt.waiting && !s.r.Chance(s.switchP, "switch?") {
 			pick = lt
 		} else {
@@ -438,10 +456,21 @@ var c09WallClock func(r *core.Run, is *Issued, a *Party)
 func runC09(r *core.Run) {
 	a := NewParty(r, "a", 0)
 	small := images.Small()
-	is := a.Endorse(r, worldp.Req{Image: small[r.Intn(len(small), "image")], SNP: true})
-	otherIs := a.Endorse(r, worldp.Req{Image: small[(r.Intn(len(small)-1, "other")+1)%len(small)], SNP: true})
-	if is.Image == otherIs.Image {
-		otherIs = a.Endorse(r, worldp.Req{Image: small[(indexOf(small, is.Image)+1)%len(small)], SNP: true})
+	// two firmwares, released a day and a half apart; which of them is the newer one is drawn
+	img1 := small[r.Intn(len(small), "image")]
+	img2 := small[(r.Intn(len(small)-1, "other")+1)%len(small)]
+	if img2 == img1 {
+		img2 = small[(indexOf(small, img1)+1)%len(small)]
+	}
+	var is, otherIs *Issued
+	if r.Bool("other-firmware-is-newer") {
+		is = a.Endorse(r, worldp.Req{Image: img1, SNP: true})
+		a.A.Now = a.A.Now.Add(36 * time.Hour)
+		otherIs = a.Endorse(r, worldp.Req{Image: img2, SNP: true})
+	} else {
+		otherIs = a.Endorse(r, worldp.Req{Image: img2, SNP: true})
+		a.A.Now = a.A.Now.Add(36 * time.Hour)
+		is = a.Endorse(r, worldp.Req{Image: img1, SNP: true})
 	}
 	if c09WallClock != nil && r.Chance(8, "wall-clock-scenario?") {
 		c09WallClock(r, is, a)
@@ -458,9 +487,11 @@ func runC09(r *core.Run) {
 	// does not know it, so which family a validator asks for decides its verdict)
 	s := &sched{r: r, maxSteps: 400}
 	pct := false
-	switch r.Intn(6, "strategy") {
+	switch r.Intn(7, "strategy") {
 	case 4, 5:
 		pct = true
+	case 6:
+		s.gather = true
 	case 0:
 		s.switchP = 0
 	case 1:
@@ -491,6 +522,9 @@ func runC09(r *core.Run) {
 		named = []uint32{2, 4, 8}[r.Intn(3, "named")]
 	}
 	nTasks := 2 + r.Intn(3, "tasks")
+	if s.gather {
+		nTasks = 5 + r.Intn(3, "many-tasks") // a fleet's worth of guests validated at once
+	}
 	if pct {
 		// random distinct priorities and d <= 3 priority change points among the first ~300 steps
 		s.prio = make([]int, nTasks)
@@ -517,6 +551,9 @@ func runC09(r *core.Run) {
 	tasks := make([]*c09Task, nTasks)
 	for i := range tasks {
 		t := &c09Task{source: r.Intn(3, "source")}
+		if s.gather && r.Chance(85, "download-path") {
+			t.source = 1
+		}
 		if shape == 2 {
 			t.source = r.Intn(2, "source") // extras or bucket
 		}
